@@ -205,6 +205,7 @@ func RunC03(tier string) int {
 		fmt.Printf("  set %s: runs=%d\n", name, len(jobs))
 	}
 
+	var three3 [][]string
 	all := c03Rules(false)
 	coreRules := c03Rules(true)
 	mk := func(ruleFiles [][]string, universes []int, cons []c03Consumer) []job {
@@ -246,9 +247,12 @@ func RunC03(tier string) int {
 		// quick: 2-rule files over the core alphabet; the second universe only for plain Pack
 		runJobs("2-rule files (core alphabet)", mk(two, []int{1}, consumers[:2]))
 	}
-	if thorough {
+	{
 		var three [][]string
 		small := []string{"a/", "!a/b", "a/*", "!a/ab/", "/ab", "**/b", "!b", "*", "!*/a", "ab/b/", "!/a/ab/a", "a*"}
+		if !thorough {
+			small = []string{"!b", "a/", "!a/b", "ab/b/", "!ab/b/a", "a/*"}
+		}
 		for _, r1 := range small {
 			for _, r2 := range small {
 				for _, r3 := range small {
@@ -256,7 +260,8 @@ func RunC03(tier string) int {
 				}
 			}
 		}
-		runJobs("3-rule files (12-rule core)", mk(three, []int{1, 2}, consumers[:2]))
+		runJobs(fmt.Sprintf("3-rule files (%d-rule core)", len(small)), mk(three, []int{1, 2}, consumers[:2]))
+		three3 = three
 	}
 	// ---- consumer: packages fetched into a bundle ----
 	runBundle := func(name string, ruleFiles [][]string, universes []int) {
@@ -335,6 +340,7 @@ func RunC03(tier string) int {
 		fmt.Printf("  set %s: runs=%d (failed builds, no verdict: %d)\n", name, len(bjobs), failed)
 	}
 	runBundle("bundle: misc", misc, []int{1, 2})
+	runBundle("bundle: 3-rule files", three3, []int{1})
 	runBundle("bundle: 1-rule files (full alphabet)", one, []int{1, 2})
 	if thorough {
 		runBundle("bundle: 2-rule files (full alphabet)", two, []int{1})
